@@ -46,6 +46,10 @@ def c03(tier, seed):
 def c14(tier, seed):
     t0 = time.time()
     obs, cmd, prep = units_path.run_spec(units_path.features_spec(), timeout=3000)
+    vo, vcmd, vlog, _ = units_verus.run_unit("fn_abi")
+    obs += vo
+    cmd = cmd + " ; " + vcmd
+    prep = [prep] + [dict(l, unit="fn_abi") for l in vlog]
     meta = {
         "checker_cmd": cmd,
         "trusted_base": GLOBAL_TRUST + [
@@ -53,18 +57,19 @@ def c14(tier, seed):
         ],
         "functions_under_contract": [
             "bindgen/features.rs: RustTarget::stable, RustTarget::minor, RustTarget::is_compatible, RustFeatures::new, RustFeatures::new_with_latest_edition, RustEdition::is_available, RustTarget::latest_edition, RustEdition::from_str (literal inputs), LATEST_STABLE_RUST, EARLIEST_STABLE_RUST",
+            "bindgen/ir/function.rs: FunctionSig::abi, FunctionSig::is_variadic (Verus unit fn_abi: the ABI gating site; override lookup = one uninterpreted accessor)",
         ],
-        "extraction": [{"mode": "path", "file": "bindgen/features.rs", "rewrites": 0}],
+        "extraction": [{"mode": "path", "file": "bindgen/features.rs", "rewrites": 0}] + prep,
         "assumptions": [
             "complete: minor, patch range over all of u64, edition over all 3 values, nightly flag; loops are over <=3 editions / 4-byte string literals (unwind 8 with unwinding assertions)",
             "RustTarget::from_str and RustTarget::default() (rustc --version probing) are not under contract",
         ],
         "unverified": [
-            "that each code-generation site consults its flag (codegen/mod.rs, helpers.rs raw_type, ir/function.rs FunctionSig::abi)",
+            "that the other code-generation sites consult their flag (codegen/mod.rs unsafe_extern_blocks/offset_of/literal_cstr/const_cstr/ptr_metadata/layout_for_ptr, helpers.rs raw_type core_ffi_c): only FunctionSig::abi is under contract",
             "edition validation inside Builder::generate (lib.rs)",
         ],
     }
-    return finish("C14", tier, seed, obs, meta, t0, replay_fn=units_path.replay("C14"))
+    return finish("C14", tier, seed, obs, meta, t0, replay_fn=_replay("C14"))
 
 
 LAYOUT_TRUST = [
@@ -205,16 +210,17 @@ def c07(tier, seed):
 def c08(tier, seed):
     def extra():
         return units_incrate.run_spec(units_incrate.derive_tables_spec())
-    return _verus_prop("C08", tier, seed, [("derive_gate", None, None)], {
+    return _verus_prop("C08", tier, seed, [("derive_gate", None, None), ("derives", None, None)], {
         "trusted_base": INCRATE_TRUST + ["env/derive_gate_env.rs: uninterpreted options and analysis lookups; generic impl<T> instantiated at T = ItemId",
                                         "rule-table oracle written from the property statement (kani_incrate/derive_tables.rs)"],
         "functions_under_contract": ["bindgen/ir/context.rs: the eight impl<T> CanDerive{Debug,Default,Copy,Hash,PartialOrd,PartialEq,Eq,Ord} for T bodies",
+                                     "bindgen/codegen/mod.rs: derives_of_item (packed-requires-Copy, annotation exclusions; DerivableTraits modelled as one bool per flag)",
                                      "bindgen/ir/analysis/derive.rs: DeriveTrait::can_derive_{simple,pointer,vector,union,compound_with_destructor,compound_with_vtable,compound_forward_decl,incomplete_array}; can_derive_fnptr (bounded)",
                                      "bindgen/ir/function.rs: FunctionSig::function_pointers_can_derive (bounded)"],
         "assumptions": ["gating: result == option enabled && analysis lookup (&& no float for Eq/Ord), both directions ('never when', 'never withheld')",
                         "rule tables complete over all 5 traits x every TypeKind constructible without libclang (17 kinds); UnresolvedTypeRef, Comp, Function, TemplateInstantiation, ObjCInterface kinds are not constructible and are skipped"],
         "bounds": "fn-pointer rule: argument counts 0, 12, 13 (around the 12-argument limit) x all ABIs x all traits",
-        "unverified": ["CannotDerive::constrain_type / constrain_join on real IR; derives_of_item (packed-requires-Copy); hand-written impl bodies (impl_debug.rs, impl_partialeq.rs, Default via write_bytes)"],
+        "unverified": ["CannotDerive::constrain_type / constrain_join on real IR (per-kind composition: arrays, comps, template instantiations); hand-written impl bodies (impl_debug.rs, impl_partialeq.rs, Default via write_bytes)"],
     }, extra_obs=extra)
 
 
